@@ -1,6 +1,7 @@
 """C13 — conversion depends on what the package says, not on how it spells it."""
 import common
 import io
+import os
 import random
 import xml.dom.minidom
 
@@ -10,7 +11,7 @@ from common import run_driver
 from gen_docx import el
 
 PROFILE = dict(style_map=0.3, p_ignored=0.3, p_unknown=0.25, hostile=0.6, p_table=0.15, p_image=0.1, p_note=0.15, p_field=0.15, separators=False, p_embedded_map=0.05,
-               p_altcontent=0.25, p_deleted_tail=0.06, p_comment=0.1)
+               p_altcontent=0.25, p_deleted_tail=0.06, p_comment=0.1, p_graphic_uri=0.7)
 IGNORED_INSERT = ["w:sectPr", "w:proofErr", "w:bookmarkEnd", "w:commentRangeStart", "w:commentRangeEnd", "w:lastRenderedPageBreak"]
 
 
@@ -31,8 +32,11 @@ def random_spelling(rng):
             rename[p] = rng.choice(canon + ["x" + p, "ns2", p.upper()])
     noise = {n for n in ("comments", "pis", "ws", "cdata", "charrefs", "rebind") if rng.random() < 0.5}
     enc = rng.choice(["utf-8", "utf-8", "utf-16"])
-    return D.Spelling(strict=rng.random() < 0.4, rename=rename, default_ns=rng.choice([None, None, "w"]), noise=noise,
-                      rng=random.Random(rng.random()), encoding=enc, bom=(enc == "utf-8" and rng.random() < 0.3), decl=rng.random() < 0.8)
+    sp = D.Spelling(strict=rng.random() < 0.4, rename=rename, default_ns=rng.choice([None, None, "w"]), noise=noise,
+                    rng=random.Random(rng.random()), encoding=enc, bom=(enc == "utf-8" and rng.random() < 0.3), decl=rng.random() < 0.8)
+    # Strict as Word writes it: also the namespace URIs that occur as attribute VALUES (a:graphicData/@uri, Relationship/@Type)
+    sp.strict_values = rng.random() < 0.75
+    return sp
 
 
 def insert_ignored(tree, rng):
@@ -98,6 +102,44 @@ def rename_parts(parts, rng):
     return parts
 
 
+LOCATED_KINDS = ("styles", "numbering", "footnotes", "endnotes", "comments")
+
+
+def located_types(parts, rels_name):
+    """the relationship Types of the part `rels_name` that have to stay as they are when the part is written Strict.
+    The library looks parts up by the TRANSITIONAL type URI only (docx/__init__.py: _find_document_filename, find) and takes
+    the conventional path (word/document.xml, word/styles.xml ...) when it finds none; a Strict type URI is therefore the same
+    package to it exactly when the part the relationship leads to is the one at the conventional path (or there is none).
+    Where it is not (renamed parts), the Strict type would make the library read another part - recorded as a limitation of the
+    library in the report of this strengthening, kept out of the respelling so that the clean tree stays silent."""
+    if rels_name == "_rels/.rels":
+        base, kinds = "", {"officeDocument": "word/document.xml"}
+    elif rels_name == "word/_rels/document.xml.rels":
+        base, kinds = "word", {k: "word/%s.xml" % k for k in LOCATED_KINDS}
+    else:
+        return set()
+    tree = next((p["xml"] for p in parts if p["name"] == rels_name and "xml" in p), None)
+    if tree is None:
+        return set()
+    names = {p["name"] for p in parts}
+    keep = set()
+    for kind, fallback in kinds.items():
+        ty = "http://schemas.openxmlformats.org/officeDocument/2006/relationships/" + kind
+        found = []
+        for c in tree[2]:
+            if isinstance(c, str):
+                continue
+            a = dict(map(tuple, c[1]))
+            if a.get("Type") == ty and "Target" in a:
+                t = a["Target"]
+                t = (t if t.startswith("/") or not base else base + "/" + t).lstrip("/")
+                if t in names:
+                    found.append(t)
+        if found and found[0] != fallback:
+            keep.add(ty)
+    return keep
+
+
 def dom_to_json(node):
     N = xml.dom.Node
     if node.nodeType == N.ELEMENT_NODE:
@@ -127,6 +169,195 @@ def sort_attrs(j):
     return [j[0], sorted(j[1]), [sort_attrs(c) for c in j[2]]]
 
 
+# ---------------------------------------------------------------------------
+# zip-level respellings (entry order, compression method and level per entry) of packages in which one part the library
+# reads is LARGE and very regular - a long report, a table of thousands of equal rows, a big plain picture, a styles part
+# with thousands of styles.  Such parts deflate by 100:1 to 1000:1, so that the stored and the deflated spelling of the same
+# package differ by orders of magnitude in what the zip directory says about them (compress_size, the ratio, the method).
+# ---------------------------------------------------------------------------
+
+SIZES_SMALL = [65537, 66000, 131073, 140000, 262145, 300000, 524289, 600000]        # just above 64 / 128 / 256 / 512 KiB
+SIZES_LARGE = [1048577, 1100000, 1300000, 2097153, 2500000, 4194305]               # just above 1 / 2 / 4 MiB
+FILLS = ["a", " ", "lorem ipsum ", "The quick brown fox jumps over the lazy dog. ", "0123456789abcdefghijklmnopqrstuvwxyzABCDEFGHIJKLMNOPQRSTUVWXYZ-_ .,;"]
+INFLATE_KINDS = ("body-text", "body-paragraphs", "body-rows", "media", "styles", "numbering", "notes", "comments", "content-types", "rels", "style-map")
+UNITS = {"body-text": [1], "body-paragraphs": [30, 300, 1000], "body-rows": [30, 150, 400], "notes": [30, 150, 400], "comments": [30, 150, 400],
+         "styles": [50, 500, 1200], "numbering": [50, 500, 1200], "content-types": [50, 500, 2000], "rels": [50, 500, 1200]}   # measured: 600 rows = 1 s per conversion
+INFLATE_ROOTS = {"styles": ("w:styles",), "numbering": ("w:numbering",), "notes": ("w:footnotes", "w:endnotes"), "comments": ("w:comments",),
+                 "content-types": ("content-types:Types",)}
+REL = "http://schemas.openxmlformats.org/officeDocument/2006/relationships/"
+
+
+def _fill(pattern, n):
+    return (pattern * (n // len(pattern) + 1))[:max(n, 0)]
+
+
+def _unit(kind, root, text, i):
+    """one of the equal units a part is inflated with (i = None: all units identical; else numbered)"""
+    t = text if i is None else "%d %s" % (i, text)
+    n = "" if i is None else str(i)
+    para = lambda x: el("w:p", [("w:rsidR", "00A1B2C3")], [el("w:pPr", [], [el("w:spacing", [("w:after", "0")])]),
+                                                        el("w:r", [], [el("w:rPr", [], [el("w:lang", [("w:val", "en-GB")])]), el("w:t", [], [x])])])
+    if kind in ("body-text", "body-paragraphs"):
+        return para(t)
+    if kind == "body-rows":
+        cell = lambda x: el("w:tc", [], [el("w:tcPr", [], [el("w:tcW", [("w:w", "2310"), ("w:type", "dxa")])]), el("w:p", [], [el("w:r", [], [el("w:t", [], [x])])])])
+        return el("w:tr", [], [cell(t), cell("In stock"), cell("0.00")])
+    if kind == "styles":
+        return el("w:style", [("w:type", "paragraph"), ("w:styleId", "Pad" + n)], [el("w:name", [("w:val", "pad " + t)]), el("w:basedOn", [("w:val", "Normal")])])
+    if kind == "numbering":
+        return el("w:abstractNum", [("w:abstractNumId", "9" + (n or "0"))], [el("w:lvl", [("w:ilvl", "0")], [el("w:numFmt", [("w:val", "decimal")]), el("w:lvlText", [("w:val", t)])])])
+    if kind == "notes":
+        return el(root[:-1], [("w:id", "9" + (n or "0"))], [para(t)])          # w:footnote / w:endnote nobody refers to
+    if kind == "comments":
+        return el("w:comment", [("w:id", "9" + (n or "0")), ("w:author", "pad")], [para(t)])
+    if kind == "content-types":
+        return el("content-types:Default", [("Extension", "pad" + n), ("ContentType", "application/x-pad;v=" + t)])
+    if kind == "rels":
+        return el("relationships:Relationship", [("Id", "rIdPad" + n), ("Type", REL + "hyperlink"), ("Target", "http://pad.example/" + t), ("TargetMode", "External")])
+    raise ValueError(kind)
+
+
+def inflate(parts, recipe):
+    """the package `parts` with ONE part made large and regular as `recipe` says ({kind, target, units, fill, vary}; no
+    randomness: the replay rebuilds it).  Returns (parts, name of the large part) or None where the kind does not apply."""
+    kind, target, n, fill, vary = recipe["kind"], recipe["target"], recipe.get("units", 1), recipe["fill"], recipe.get("vary", False)
+    parts = [dict(p) for p in parts]
+    if kind == "style-map":
+        old = next((p for p in parts if p["name"] == "mammoth/style-map"), None)
+        head = bytes.fromhex(old["hex"]) if old else b""
+        line = ("# " + _fill(fill, 70)).encode("utf-8") + b"\n"
+        lines = [line if not vary or i % 50 else ("p.Pad%d => p.pad%d:fresh\n" % (i, i)).encode("utf-8") for i in range((target - len(head)) // len(line) + 1)]
+        data = head + (b"" if not head or head.endswith(b"\n") else b"\n") + b"".join(lines)
+        parts = [p for p in parts if p["name"] != "mammoth/style-map"] + [{"name": "mammoth/style-map", "hex": data.hex()}]
+        return parts, "mammoth/style-map"
+    doc = next((p for p in parts if p["name"] == "word/document.xml" and "xml" in p), None)
+    if doc is None:
+        return None
+    if kind == "media":
+        # a large plain picture (bytes of a short block repeated), shown by a paragraph put in front of the body
+        rels = next((p for p in parts if p["name"] == "word/_rels/document.xml.rels" and "xml" in p), None)
+        if rels is None:
+            rels = {"name": "word/_rels/document.xml.rels", "xml": el("relationships:Relationships")}
+            parts.append(rels)
+        name = "word/media/padimage.%s" % recipe.get("ext", "png")
+        rels["xml"] = [rels["xml"][0], rels["xml"][1], list(rels["xml"][2]) + [el("relationships:Relationship", [("Id", "rIdPadImg"), ("Type", REL + "image"), ("Target", name[5:])])]]
+        pic = el("w:p", [], [el("w:r", [], [el("w:drawing", [], [el("wp:inline", [], [el("wp:docPr", [("id", "1"), ("name", "Picture 1"), ("descr", "pad")]), el("a:graphic", [], [
+            el("a:graphicData", [("uri", "http://schemas.openxmlformats.org/drawingml/2006/picture")], [el("pic:pic", [], [el("pic:blipFill", [], [el("a:blip", [("r:embed", "rIdPadImg")])])])])])])])])])
+        parts.append({"name": name, "hex": _fill(fill, target).encode("utf-8").hex()})
+        where, units, wrap = doc, [pic], None
+    elif kind.startswith("body-"):
+        where, wrap = doc, ("w:tbl" if kind == "body-rows" else None)
+    elif kind == "rels":
+        where, wrap = next((p for p in parts if p["name"] == "word/_rels/document.xml.rels" and "xml" in p), None), None
+    else:
+        where, wrap = next((p for p in parts if "xml" in p and p["xml"][0] in INFLATE_ROOTS[kind]), None), None
+    if where is None:
+        return None
+
+    def with_units(us):
+        tree = where["xml"]
+        if where is doc:
+            body_at = next((i for i, c in enumerate(tree[2]) if not isinstance(c, str) and c[0] == "w:body"), None)
+            if body_at is None:
+                return None
+            body = tree[2][body_at]
+            new_body = [body[0], body[1], ([el(wrap, [], us)] if wrap and us else list(us)) + list(body[2])]
+            return [tree[0], tree[1], tree[2][:body_at] + [new_body] + tree[2][body_at + 1:]]
+        return [tree[0], tree[1], list(tree[2]) + list(us)]
+    if kind != "media":
+        root = where["xml"][0]
+        t0, t1 = with_units([]), with_units([_unit(kind, root, "", None)])
+        if t0 is None:
+            return None
+        s0 = len(D.xml_to_bytes(t0))
+        per = len(D.xml_to_bytes(t1)) - s0
+        text = _fill(fill, -(-(target - s0) // n) - per + 1)
+        one = _unit(kind, root, text, None)
+        units = [_unit(kind, root, text, i) if vary else one for i in range(n)]
+    new = with_units(units)
+    if new is None:
+        return None
+    where["xml"] = new
+    return parts, (name if kind == "media" else where["name"])
+
+
+def freeze(parts):
+    """every part as the bytes of its plain spelling: the variants differ at the zip level only"""
+    return [{"name": p["name"], "hex": (D.xml_to_bytes(p["xml"]) if "xml" in p else bytes.fromhex(p["hex"])).hex()} for p in parts]
+
+
+def brief(x):
+    import hashlib
+    if isinstance(x, str) and len(x) > 600:
+        return {"length": len(x), "sha1": hashlib.sha1(x.encode("utf-8", "surrogatepass")).hexdigest(), "head": x[:300], "tail": x[-100:]}
+    if isinstance(x, dict):
+        return {k: brief(v) for k, v in x.items()}
+    if isinstance(x, (list, tuple)):
+        return [brief(v) for v in x]
+    return x
+
+
+def outcome(r):
+    return (r.get("value"), A.norm_messages(r.get("messages", [])), r.get("raw"), r.get("err"), r.get("embedded"))
+
+
+def zip_variant(rz, frozen, j):
+    names = [p["name"] for p in frozen]
+    order = list(range(len(frozen)))
+    rz.shuffle(order)
+    if j == 0:
+        comp = {"*": ["deflate", rz.choice([1, 6, 9])]}
+    else:
+        comp = {nm: rz.choice(["stored", ["deflate", 1], ["deflate", 6], ["deflate", 9]]) for nm in names}
+    return order, comp
+
+
+def zip_cases(out, cs, seed, tier):
+    """for every kind of large regular part, one package with a part above 1 MiB and one above a smaller power of two: the
+    all-stored package (entries in the given order) against k zip-level respellings of the very same part bytes"""
+    import io
+    import zipfile
+    rz = random.Random(seed * 104729 + 131)
+    rounds = common.deepen(1 if tier == "quick" else 4)
+    k = 2 if tier == "quick" else 4
+    seen = []
+    for rnd_i in range(rounds):
+        for kind in INFLATE_KINDS:
+            for sizes in (SIZES_LARGE, SIZES_SMALL):
+                recipe = {"kind": kind, "target": rz.choice(sizes), "units": rz.choice(UNITS.get(kind, [1])), "fill": rz.choice(FILLS), "vary": rz.random() < 0.3,
+                          "ext": rz.choice(["png", "jpg", "gif", "bin"])}
+                cand = list(range(len(cs)))
+                rz.shuffle(cand)
+                chosen = None
+                for tries, i in enumerate(cand):
+                    got = inflate(cs[i]["parts"], recipe)
+                    if got is None:
+                        continue
+                    frozen = freeze(got[0])
+                    base = D.run_real(D.build_docx(frozen), cs[i]["options"], want_doc=False)
+                    chosen = (cs[i], frozen, got[1], base)
+                    if "err" not in base or tries >= 6:
+                        break
+                if chosen is None:
+                    continue
+                c, frozen, big, base = chosen
+                size = next(len(p["hex"]) // 2 for p in frozen if p["name"] == big)
+                for j in range(k):
+                    order, comp = zip_variant(rz, frozen, j)
+                    data = D.build_docx(frozen, order=order, compression=comp)
+                    r = D.run_real(data, c["options"], want_doc=False)
+                    out.count(key="%s-zip-%s-%d-%d-%d" % (c["key"], kind, recipe["target"], rnd_i, j), nontrivial=True)
+                    zi = zipfile.ZipFile(io.BytesIO(data)).getinfo(big)
+                    seen.append([kind, size, round(zi.file_size / max(zi.compress_size, 1))])
+                    if outcome(base) != outcome(r):
+                        out.violation("the same parts zipped in another entry order / with another compression method or level per entry convert differently "
+                                      "(large regular part %s: %d bytes, %d bytes compressed in the respelled package)" % (big, zi.file_size, zi.compress_size),
+                                      {"kind": "zip-respell", "parts": c["parts"], "options": c["options"], "inflate": recipe, "order": order, "compression": comp},
+                                      expected=brief(dict(zip(("value", "messages", "raw", "err", "embedded"), outcome(base)))),
+                                      actual=brief(dict(zip(("value", "messages", "raw", "err", "embedded"), outcome(r)), err_text=r.get("err_text"))))
+    out.extra.update(zip_respelled_large_parts=len(seen), zip_large_part_kind_size_ratio=seen[:60])
+
+
 def run(out, tier, seed, model_ok):
     rng = random.Random(seed * 7919 + 13)
     n = common.deepen(500 if tier == "quick" else 6000)
@@ -135,6 +366,7 @@ def run(out, tier, seed, model_ok):
     run_.run(cs, nontrivial=lambda c, r: True)
     k = 3 if tier == "quick" else 6
     dom_lines, dom_expect = [], []
+    kept_types, strict_values = [0], [0]
     from mammoth.docx import office_xml, xmlparser
     for c in cs:
         base = D.run_real(D.build_docx(c["parts"]), c["options"], want_doc=False)
@@ -145,6 +377,13 @@ def run(out, tier, seed, model_ok):
                 parts2 = [dict(p, xml=remove_ignored(p["xml"], rng)) if "xml" in p and p["name"].startswith("word/") and "_rels" not in p["name"] else p for p in parts2]
             parts2 = rename_parts(parts2, rng) if rng.random() < 0.4 else parts2
             sp = {p["name"]: random_spelling(rng) for p in parts2 if "xml" in p}
+            for nm, s_ in sp.items():
+                if s_.strict and s_.strict_values and nm.endswith(".rels") and os.environ.get("VERIF_C13_KEEP_LOCATED_TYPES") == "1":
+                    # (development switch, off: before the repair F13 the library found parts by the TRANSITIONAL relationship
+                    # type only, so that a Strict type on a relationship to a renamed part changed the result)
+                    s_.keep_values = located_types(parts2, nm)
+                    kept_types[0] += len(s_.keep_values)
+                strict_values[0] += bool(s_.strict and s_.strict_values)
             order = list(range(len(parts2)))
             rng.shuffle(order)
             data = D.build_docx(parts2, order=order, compression=rng.choice([None, "deflate", "mixed"]), spellings=sp)
@@ -169,6 +408,7 @@ def run(out, tier, seed, model_ok):
                 except Exception as e:  # noqa
                     ro = {"err": D.err_kind(e)}
                 dom_expect.append((sort_attrs(xml_to_json(real_parse)), ro, raw))
+    zip_cases(out, cs, seed, tier)
     if model_ok and dom_lines:
         for line, (rp, ro, raw), m in zip(dom_lines, dom_expect, run_driver(dom_lines, tag="dom")):
             out.count(key=repr(line)[:5000], nontrivial=True)
@@ -185,7 +425,14 @@ def run(out, tier, seed, model_ok):
                 "following the spelling; generated packages include containers that end in a deleted-mark paragraph; "
                 "observation = (value, messages, raw text) must equal those of the canonical spelling; the canonical result also equals the Lean model's; the DOM that "
                 "minidom builds is sent to the Lean Dom model and compared with xmlparser/office_xml's tree")
-    out.extra.update(respellings_per_document=k, dom_trees=len(dom_lines))
+    out.rule += ("; a Strict part is Strict throughout in 3 of 4 cases: the namespace URIs written as attribute VALUES follow (a:graphicData/@uri of the generated "
+                 "DrawingML pictures, Relationship/@Type of the .rels parts - except the types through which the library locates a part that is not at its "
+                 "conventional path); for every kind of part the library reads (document body as one long text / equal paragraphs / equal table rows, a media part, "
+                 "styles, numbering, notes, comments, content types, relationships, the embedded style map) one package whose part is above 1, 2 or 4 MiB and one "
+                 "above 64 ... 512 KiB, regular enough to deflate by 100:1 ... 1000:1, is compared between the all-stored spelling and zip-level respellings "
+                 "(entry order; deflate level 1 / 6 / 9 or stored, for all entries or per entry) of the very same part bytes")
+    out.extra.update(respellings_per_document=k, dom_trees=len(dom_lines), strict_attribute_value_spellings=strict_values[0],
+                     strict_relationship_types_kept_transitional=kept_types[0])
     out.sample({"options": cs[0]["options"]})
 
 
@@ -200,6 +447,16 @@ def replay(out, payload, model_ok):
                 out.violation("a meaning-preserving respelling of the package changed the result", case, expected=base.get("value"), actual=r.get("value"))
         out.rule = "replay"
         out.sample({"options": case["options"]})
+    elif case.get("kind") == "zip-respell":
+        frozen = freeze(inflate(case["parts"], case["inflate"])[0])
+        base = D.run_real(D.build_docx(frozen), case["options"], want_doc=False)
+        r = D.run_real(D.build_docx(frozen, order=case["order"], compression=case["compression"]), case["options"], want_doc=False)
+        out.count("replay", True)
+        if outcome(base) != outcome(r):
+            out.violation("the same parts zipped in another entry order / with another compression method or level per entry convert differently", case,
+                          expected=brief(list(outcome(base))), actual=brief(list(outcome(r)) + [r.get("err_text")]))
+        out.rule = "replay (zip-level respelling of a package with a large regular part)"
+        out.sample({"options": case["options"], "inflate": case["inflate"]})
     elif case.get("kind") == "dom":
         out.count("replay", True)
         out.rule = "replay (dom)"
